@@ -111,8 +111,12 @@ def onepass_problems(ff: FuncFlow, p: str) -> List[str]:
       parent = m.parent_of.get(x)
       if isinstance(parent, ast.Call) and ff.ext(parent.func) == 'builtins.isinstance':
         continue
+      # keeping a reference (x = p, self.f = p, a if c else p, return p) does not consume the iterable
+      if (isinstance(parent, (ast.Assign, ast.AnnAssign, ast.Return)) and getattr(parent, 'value', None) is x) or (
+          isinstance(parent, ast.IfExp) and (parent.body is x or parent.orelse is x)):
+        continue
       if any(pol and any(isinstance(c, ast.Call) and ff.ext(c.func) == 'builtins.isinstance' and c.args and isinstance(c.args[0], ast.Name) and
-                         c.args[0].id == p for c in ast.walk(t)) for t, pol in guards_of(ff, x)):
+                         c.args[0].id == p for c in ff.deep_walk(t)) for t, pol in guards_of(ff, x)):
         continue
       if not any(x is y for _, y in uses):
         uses.append((n, x))
